@@ -234,6 +234,11 @@ func (g *runner) run(p *pkt, tag string, badmac bool) string {
 		chk("src-addr", bytes.Equal(r.scn.RawSrcAddr, p.da))
 		chk("dst-addr", bytes.Equal(r.scn.RawDstAddr, p.sa))
 		chk("path-reversed", p.rev != "err" && fmt.Sprintf("%d:%s", r.scn.PathType, lib.Hex(r.pathRaw)) == p.rev)
+		if r.l4 == "udp" {
+			// the reply's UDP length field says exactly how much L4 data follows: the bytes the reply's
+			// authenticator covers (UDP header + payload by the length field) are all the L4 bytes sent
+			chk("udp-length", int(r.udp.Length) == r.l4len && len(r.l4raw) == r.l4len)
+		}
 		if p.l4 == "udp" {
 			chk("l4", r.l4 == "udp")
 			if r.l4 == "udp" {
@@ -304,6 +309,11 @@ func gen(c *lib.Ctx) {
 		killChildren()
 		return
 	}
+	if os.Getenv("C13_PART") == "reframe" { // development: the re-framed requests only
+		genReframe(g, c.Rand.Fork("reframe"), c.Scale(60, 400))
+		killChildren()
+		return
+	}
 	if os.Getenv("C13_PART") == "epochs" {
 		genEpochHistories(g, c.Rand.Fork("epochs"), c.Scale(2, 8))
 		killChildren()
@@ -315,6 +325,7 @@ func gen(c *lib.Ctx) {
 	genNoMock(g, c.Rand.Fork("nomock"), c.Scale(150, 1500))
 	genServe(g, c.Rand.Fork("serve"), c.Scale(1500, 15000))
 	genMutations(g, c.Rand.Fork("mut"), c.Scale(15, 150))
+	genReframe(g, c.Rand.Fork("reframe"), c.Scale(60, 400))
 	genPorts(g, c.Rand.Fork("ports"), c.Scale(800, 7000))
 	genSCMP(g, c.Rand.Fork("scmp"), c.Scale(500, 5000))
 	genDispatcher(g, c.Rand.Fork("disp"), c.Scale(300, 3000))
@@ -429,6 +440,56 @@ func genServe(g *runner, r *lib.Rand, n int) {
 		}
 		finish(p)
 		g.run(p, tag, badmac)
+	}
+}
+
+// genReframe: re-framed authenticated requests. An on-path attacker without the key takes a verified
+// request `pre|H|P` (H: UDP header, length field 8+|P|) and sends `pre'|H'|F|H|P` (front: F a request of
+// its own making where the length field points, the authentic UDP datagram behind it) or `pre'|H'|P|H''|F`
+// (mirror: the authentic part in front, junk behind), the UDP length field as in the original and the
+// authenticator option unchanged. The MAC of the option covers H|P. C13's server clause: a request
+// whose MAC does not verify over the received packet — over the bytes the listener decodes and answers —
+// is never served. `mac=` of the op is the MAC over the UDP header and the payload the length field delimits.
+func genReframe(g *runner, r *lib.Rand, n int) {
+	for i := 0; i < n; i++ {
+		a := basePkt(r)
+		pname := pickPath(r, a, []int{0, 0, 1, 2}[r.Intn(4)])
+		if r.Chance(30) {
+			a.pre = 1
+		}
+		withAuth(a, spiClient, 0)
+		finish(a)
+		ab, err := a.bytes()
+		if err != nil || a.mac == "-" || a.mac == "err" {
+			continue
+		}
+		authentic := ab[len(ab)-8-len(a.pld):] // H|P as the client sent it
+		forged := ntpRequest(byte(r.U64()))
+		forged[1] = byte(1 + r.Intn(15))
+		for bytes.Equal(forged, a.pld) {
+			forged[47] ^= 0xff
+		}
+		// front: the attacker's request where the length field points
+		f := *a
+		f.auth = append([]byte(nil), a.auth...)
+		f.pld = forged
+		f.ulen = "tail" + lib.Hex(authentic)
+		f.tail = authentic
+		finish(&f)
+		g.run(&f, "reframe:front:"+pname, true)
+		// mirror: the authentic request in front, the attacker's bytes behind (harmless: served as the
+		// authentic request it is, the trailing bytes are not looked at)
+		m := *a
+		m.auth = append([]byte(nil), a.auth...)
+		junk := append(append([]byte(nil), authentic[:8]...), forged...)
+		m.ulen = "tail" + lib.Hex(junk)
+		m.tail = junk
+		finish(&m)
+		g.run(&m, "reframe:mirror:"+pname, false)
+		// and the original, for reference
+		if r.Chance(30) {
+			g.run(a, "reframe:original:"+pname, false)
+		}
 	}
 }
 
